@@ -59,7 +59,7 @@ func ZZ_C14_ReplicaHandlers() {
 	viaRouter := h.action != "" && zzNondetBool("via-checkAction")
 	var err error
 	if viaRouter {
-		err = checkAction(s, h.f(s))(rw, req)
+		err = zzViaCheckAction(s, h.f(s), rw, req)
 	} else {
 		err = h.f(s)(rw, req)
 	}
@@ -155,7 +155,7 @@ func ZZ_C14_ReplicaWriterArrives() {
 		}
 	}
 	if h.action != "" && zzNondetBool("via-checkAction") {
-		checkAction(s, h.f(s))(&zzRW{}, zzRequest())
+		zzViaCheckAction(s, h.f(s), &zzRW{}, zzRequest())
 	} else {
 		h.f(s)(&zzRW{}, zzRequest())
 	}
